@@ -1,5 +1,6 @@
 import Pyrealb.Lemmas.ClauseFrRank
 import Pyrealb.Lemmas.ClauseFrNesting
+import Pyrealb.Lemmas.ClauseFrClause
 import Pyrealb.Model.ClauseFrRealize
 /-! # C05 — French clause transformations: negation, auxiliaries, clitics, inversion
 
@@ -707,5 +708,251 @@ theorem tempsAux_matches_rules_tbl : ∀ p ∈ compoundRules, lookup p.1 tempsAu
 
 /-- every compound tense of the code has an auxiliary tense among the 19 tense codes -/
 theorem compound_tenses_tbl : ∀ t ∈ compoundList, ((lookup t tempsAux).bind Tense.ofStr).isSome = true := by decide
+
+/-! ## the position clauses on the WHOLE CLAUSE (constituent notation, declarative or exclamative sentence)
+
+`phraseTyped_inv` + `pronominalizeVP_esig` + `realVPToks_head` show that `S(subj, VP(V, …)).typ(..)` hands
+`doPronounPlacement` a list whose FIRST token is the first token of the first verb, which carries `neg2`; every other
+verb token is clean. The contract theorems above then apply with an empty prefix, and the S only puts verb-free
+tokens in front. -/
+
+/-- the first verb of the clause inflects (no morphology error), its form is not empty and it is not an infinitive:
+    stated on the list of the VP before placement -/
+def FirstVerb (Q : VT → Prop) (sp : Spec) : Prop :=
+  ∀ sel vp e raw, phraseTyped sp = .ok (sel, vp, e) →
+    realVPToks sp.typ.refl (pronominalizeVP vp) = .ok raw →
+    ∃ y f tl, raw = .v y f :: tl ∧ f ≠ [] ∧ Q y
+
+def FirstVerbFinite (sp : Spec) : Prop := FirstVerb (fun y => y.t ≠ .b) sp
+
+/-- **C05 `ne`, clause level**: for every clause specification (any subject, verb, tense, complements in any number and
+    order, pronominalized or not, passive / progressive / modality / reflexive flags) with a negation and no
+    interrogative, the realized clause is `a ++ ne :: clitics ++ verb :: b` with no verb in `a` -/
+def ne_position_clause : Prop :=
+  ∀ (sp : Spec) (nv : NegV) (toks : List Tok) (e : Str),
+    sp.typ.int = none → sp.typ.neg = some nv → FirstVerbFinite sp → phraseToks sp = .ok (toks, e) →
+    ∃ a cs x f b, toks = a ++ .adv ne :: cs ++ .v x f :: b ∧ (∀ c ∈ cs, IsCliticFn c) ∧ (∀ t ∈ a, t.isV = false) ∧
+      x.neg2 = none
+
+/-- **C05 second negative word, clause level**: …and it is immediately followed by the second negative word -/
+def neg2_position_clause : Prop :=
+  ∀ (sp : Spec) (nv : NegV) (toks : List Tok) (e : Str),
+    sp.typ.int = none → sp.typ.neg = some nv → nv.word2 ≠ [] → FirstVerbFinite sp → phraseToks sp = .ok (toks, e) →
+    ∃ a x f b, toks = a ++ .v x f :: .q nv.word2 :: b ∧ (∀ t ∈ a, t.isV = false)
+
+theorem tailOk_atFirst (tl : List Tok) (h : ∀ t ∈ tl, TokTailOk t) : AtFirstVerb [] tl :=
+  ⟨(by intro t ht; cases ht), (by
+    intro t ht
+    have := h t (by simpa using ht)
+    cases t <;> simp_all [TokTailOk])⟩
+
+/-- the list handed to `doPronounPlacement` by the VP, and the verb-free S prefix -/
+theorem phrase_placement_input (Q : VT → Prop) (sp : Spec) (toks : List Tok) (e : Str) (w : Option Str)
+    (hint : sp.typ.int = none) (hw : sp.typ.neg.map NegV.word2 = w) (hf : FirstVerb Q sp)
+    (h : phraseToks sp = .ok (toks, e)) :
+    ∃ pre y f tl placed, (∀ t ∈ pre, t.isV = false) ∧ (∀ t ∈ tl, TokTailOk t) ∧ y.neg2 = w ∧ y.lier = false ∧
+      f ≠ [] ∧ Q y ∧ placePronouns sp.typ.refl (.v y f :: tl) = .ok placed ∧
+      toks = removeEmpty (pre ++ placed) := by
+  unfold phraseToks at h
+  obtain ⟨⟨sel, vp, endS⟩, hty, h⟩ := bindE_ok _ _ _ h
+  obtain ⟨hsel, hvpi, _⟩ := phraseTyped_inv sp sel vp endS hint hty
+  simp only at h
+  obtain ⟨toks', hreal, h⟩ := bindE_ok _ _ _ h
+  simp only [pure, Except.pure, Except.ok.injEq, Prod.mk.injEq] at h
+  obtain ⟨rfl, _⟩ := h
+  unfold phraseReal at hreal
+  obtain ⟨raw, hraw, hreal⟩ := bindE_ok _ _ _ hreal
+  obtain ⟨placed, hplaced, hreal⟩ := bindE_ok _ _ _ hreal
+  simp only [pure, Except.pure, Except.ok.injEq] at hreal
+  -- the first verb
+  obtain ⟨y, f, tl, hrawe, hfne, hyt⟩ := hf sel vp endS raw hty hraw
+  obtain ⟨x, r, hvpe, hxn, hxl, hr⟩ := vpi_of_esig _ _ vp (pronominalizeVP vp) (pronominalizeVP_esig vp) hvpi
+  rw [hvpe] at hraw
+  obtain ⟨hd, tl', hrw, htl, hhd⟩ := realVPToks_head sp.typ.refl x r raw hr hraw
+  rw [hrawe] at hrw
+  simp only [List.cons.injEq] at hrw
+  obtain ⟨rfl, rfl⟩ := hrw
+  have hy : y.neg2 = w ∧ y.lier = false := by
+    rcases hhd with ⟨l, c, hq⟩ | ⟨y', f', hq, h1, h2, _⟩
+    · cases hq
+    · cases hq; exact ⟨by rw [h1, hxn, hw], by rw [h2, hxl]⟩
+  have hfe : (Tok.v y f).form.isEmpty = false := by cases hf' : f <;> simp_all [Tok.form]
+  -- the empty realizations removed before placement: none at the head; the tail stays clean
+  have hre : removeEmpty raw = .v y f :: tl.filter (fun t => !t.form.isEmpty) := by
+    rw [hrawe, removeEmpty_filter _ ⟨.v y f, List.mem_cons_self, hfe⟩]
+    simp [List.filter, hfe]
+  rw [hre] at hplaced
+  obtain ⟨pre, rfl, hpre⟩ := hsel
+  rw [flatMap_selToks pre placed (fun e he => (hpre e he).2)] at hreal
+  refine ⟨pre.flatMap El.toks, y, f, tl.filter (fun t => !t.form.isEmpty), placed, ?_, ?_, hy.1, hy.2, hfne, hyt,
+    hplaced, hreal.symm⟩
+  · intro t ht
+    obtain ⟨e, he, hte⟩ := List.mem_flatMap.mp ht
+    exact elToks_noV e (hpre e he).1 t hte
+  · intro t ht
+    exact htl t (List.mem_filter.mp ht).1
+
+def nonEmptyB (t : Tok) : Bool := !t.form.isEmpty
+
+theorem filter_noV (l : List Tok) (p : Tok → Bool) (h : ∀ t ∈ l, t.isV = false) : ∀ t ∈ l.filter p, t.isV = false :=
+  fun t ht => h t (List.mem_filter.mp ht).1
+
+theorem ne_position_clause_holds : ne_position_clause := by
+  intro sp nv toks e hint hneg hf h
+  obtain ⟨pre, y, f, tl, placed, hpre, htl, hyn, _, hfne, hyt, hpl, htoks⟩ :=
+    phrase_placement_input _ sp toks e (some nv.word2) hint (by simp [hneg]) hf h
+  obtain ⟨cs, after, hout, hcs⟩ := ne_position_holds sp.typ.refl [] tl y f nv.word2 placed (tailOk_atFirst tl htl) hyn hyt
+    (by simpa using hpl)
+  have hfe : (Tok.v { y with neg2 := none } f).form.isEmpty = false := by cases hf' : f <;> simp_all [Tok.form]
+  rw [htoks, hout, removeEmpty_filter _ ⟨.adv ne, by simp, by decide⟩]
+  refine ⟨pre.filter (fun t => !t.form.isEmpty), cs.filter (fun t => !t.form.isEmpty), { y with neg2 := none }, f,
+    after.filter (fun t => !t.form.isEmpty), ?_, ?_, filter_noV _ _ hpre, rfl⟩
+  · have hne : (Tok.adv ne).form.isEmpty = false := by decide
+    simp [List.filter_append, List.filter_cons, hne, hfe]
+  · intro c hc
+    exact hcs c (List.mem_filter.mp hc).1
+
+theorem neg2_position_clause_holds : neg2_position_clause := by
+  intro sp nv toks e hint hneg hw hf h
+  obtain ⟨pre, y, f, tl, placed, hpre, htl, hyn, hyl, hfne, hyt, hpl, htoks⟩ :=
+    phrase_placement_input _ sp toks e (some nv.word2) hint (by simp [hneg]) hf h
+  obtain ⟨before, mid, after, hout, hmid, hbefore⟩ := neg2_position_finite_holds sp.typ.refl [] tl y f nv.word2 placed
+    (tailOk_atFirst tl htl) hyn hyt (by simpa using hpl)
+  have hmid0 : mid = [] := by
+    rw [hyl] at hmid
+    cases mid <;> simp_all
+  subst hmid0
+  have hfe : (Tok.v { y with neg2 := none } f).form.isEmpty = false := by cases hf' : f <;> simp_all [Tok.form]
+  have hqe : (Tok.q nv.word2).form.isEmpty = false := by cases hw' : nv.word2 <;> simp_all [Tok.form]
+  rw [htoks, hout, removeEmpty_filter _ ⟨.q nv.word2, by simp, hqe⟩]
+  refine ⟨(pre ++ before).filter (fun t => !t.form.isEmpty), { y with neg2 := none }, f,
+    after.filter (fun t => !t.form.isEmpty), ?_, ?_⟩
+  · simp [List.filter_append, List.filter_cons, hfe, hqe]
+  · apply filter_noV
+    intro t ht
+    rcases List.mem_append.mp ht with ht | ht
+    · exact hpre t ht
+    · exact hbefore t ht
+
+/-- executable form of `FirstVerbFinite` -/
+def firstVerbFiniteB (sp : Spec) : Bool :=
+  match phraseTyped sp with
+  | .ok (_, vp, _) =>
+    (match realVPToks sp.typ.refl (pronominalizeVP vp) with
+     | .ok (.v y f :: _) => !f.isEmpty && y.t != .b
+     | .ok _ => false
+     | .error _ => true)
+  | .error _ => true
+
+theorem firstVerbFinite_of_check (sp : Spec) (h : firstVerbFiniteB sp = true) : FirstVerbFinite sp := by
+  intro sel vp e raw h1 h2
+  show ∃ y f tl, raw = .v y f :: tl ∧ f ≠ [] ∧ y.t ≠ .b
+  unfold firstVerbFiniteB at h
+  simp only [h1, h2] at h
+  cases raw with
+  | nil => simp at h
+  | cons t tl =>
+    cases t <;> simp at h
+    rename_i y f
+    exact ⟨y, f, tl, rfl, by cases f <;> simp_all, by simpa using h.2⟩
+
+/-- non-vacuity: « il ne le lui donne pas » (complements given in the wrong order, negation) -/
+def ilNeLeLuiDonnePas : Spec := { ilLuiLe with typ := { neg := some .yes } }
+example : FirstVerbFinite ilNeLeLuiDonnePas := firstVerbFinite_of_check _ (by decide)
+example : (phraseToks ilNeLeLuiDonnePas).map (fun r => r.1.map Tok.form) =
+    .ok ["il".toList, "ne".toList, "le".toList, "lui".toList, "donne".toList, "pas".toList] := by decide
+
+/-- the first verb token of the VP inflects and is the main verb (no modality / progressive flag), not a positive
+    imperative: true of every conjugable clause without `mod` and `prog` -/
+def FirstVerbMain (sp : Spec) : Prop :=
+  FirstVerb (fun y => y.isMod = false ∧ y.isProg = false ∧ tableFor y ≠ .ipPos) sp
+
+/-- **C05 clitic order, clause level** (constituent notation, no interrogative): whatever complements are given, in
+    whatever order, pronominalized or not, the realized clause is `a ++ run ++ verb :: b` with no verb in `a ++ run`
+    and `run` — `ne`, the reflexive pronoun, every clitic the scan reaches — sorted by the rank table in force -/
+def clitic_order_clause : Prop :=
+  ∀ (sp : Spec) (toks : List Tok) (e : Str),
+    sp.typ.int = none → FirstVerbMain sp → phraseToks sp = .ok (toks, e) →
+    ∃ a run x f b tb, toks = a ++ run ++ .v x f :: b ∧ (∀ t ∈ a ++ run, t.isV = false) ∧ SortedBy (rankOf tb) run
+
+theorem sortedBy_filter {α} (k : α → Nat) (p : α → Bool) (l : List α) (h : SortedBy k l) : SortedBy k (l.filter p) :=
+  List.Pairwise.filter p h
+
+theorem clitic_order_clause_holds : clitic_order_clause := by
+  intro sp toks e hint hm h
+  obtain ⟨pre, y, f, tl, placed, hpre, htl, hyn, hyl, hfne, ⟨hym, hyp, hytb⟩, hpl, htoks⟩ :=
+    phrase_placement_input _ sp toks e _ hint rfl hm h
+  have hmain : AtMainVerb [] tl :=
+    ⟨(by intro t ht; cases ht), (by
+      intro t ht
+      have := htl t ht
+      cases t <;> simp_all [TokTailOk])⟩
+  have hpl' : placePronouns sp.typ.refl ([] ++ Tok.v y f :: tl) = .ok placed := by simpa using hpl
+  have hsorted := clitic_order_holds sp.typ.refl [] tl y f placed hmain hym hyp hytb hpl'
+  obtain ⟨isR, _, hrun⟩ := runBefore_place sp.typ.refl [] tl y f placed hmain hym hyp hytb hpl'
+  -- closed form of the placed list
+  rw [place_first_verb sp.typ.refl [] tl y f (atMain_onlyAux hmain) hyp hym (atMain_noAuxNeg hmain y f hym hyp)] at hpl'
+  cases hr : isReflexive y sp.typ.refl with
+  | error er => simp [hr, Except.bind] at hpl'
+  | ok isR' =>
+    simp only [hr, Except.bind, Except.ok.injEq] at hpl'
+    have hrun' : runBeforeVerb [] placed = prosOf y isR' (lastProg none []) (collect tl).1 := by
+      obtain ⟨isR2, h2, h3⟩ := runBefore_place sp.typ.refl [] tl y f placed hmain hym hyp hytb (by simpa using hpl)
+      rw [hr] at h2; cases h2; exact h3
+    have hfe : ∀ x' : VT, (Tok.v x' f).form.isEmpty = false := by intro x'; cases hf' : f <;> simp_all [Tok.form]
+    have hprosV : ∀ t ∈ prosOf y isR' (lastProg none []) (collect tl).1, t.isV = false := by
+      intro t ht
+      unfold prosOf at ht
+      rw [sortPros_mem] at ht
+      exact prosRaw_noV y isR' _ _ (collect_fst_clitic tl) t ht
+    rw [htoks, ← hpl']
+    simp only [placedAt, hytb, if_false, List.nil_append, List.append_assoc, List.singleton_append]
+    rw [removeEmpty_filter _ ⟨Tok.v (if y.t = Tense.b then y else { y with neg2 := none }) f, by simp, hfe _⟩]
+    refine ⟨pre.filter (fun t => !t.form.isEmpty),
+      (prosOf y isR' (lastProg none []) (collect tl).1).filter (fun t => !t.form.isEmpty),
+      (if y.t = Tense.b then y else { y with neg2 := none }), f,
+      (match y.neg2 with
+        | some w => if y.t = Tense.b then (collect tl).2 else pyInsert (if y.lier = true then 1 else 0) (Tok.q w) (collect tl).2
+        | none => (collect tl).2).filter (fun t => !t.form.isEmpty), tableFor y, ?_, ?_, ?_⟩
+    · simp only [List.filter_append, List.filter_cons, hfe, Bool.not_false, if_true, List.append_assoc]
+      rfl
+    · intro t ht
+      rcases List.mem_append.mp ht with ht | ht
+      · exact hpre t (List.mem_filter.mp ht).1
+      · exact hprosV t (List.mem_filter.mp ht).1
+    · apply sortedBy_filter
+      rw [← hrun']
+      exact hsorted
+
+/-- executable form of `FirstVerbMain` -/
+def firstVerbMainB (sp : Spec) : Bool :=
+  match phraseTyped sp with
+  | .ok (_, vp, _) =>
+    (match realVPToks sp.typ.refl (pronominalizeVP vp) with
+     | .ok (.v y f :: _) => !f.isEmpty && !y.isMod && !y.isProg && tableFor y != .ipPos
+     | .ok _ => false
+     | .error _ => true)
+  | .error _ => true
+
+theorem firstVerbMain_of_check (sp : Spec) (h : firstVerbMainB sp = true) : FirstVerbMain sp := by
+  intro sel vp e raw h1 h2
+  unfold firstVerbMainB at h
+  simp only [h1, h2] at h
+  cases raw with
+  | nil => simp at h
+  | cons t tl =>
+    cases t <;> simp at h
+    rename_i y f
+    exact ⟨y, f, tl, rfl, by cases f <;> simp_all, by simpa using h.1.1.2, by simpa using h.1.2, by simpa using h.2⟩
+
+/-- non-vacuity of `clitic_order_clause`: four pronominalized complements given in the reverse of the canonical order -/
+def reversed4 : Spec :=
+  { subj := some (.pro false 3 .s .m), verb := witnessVerbLex, t := Tense.p,
+    comps := [.pp "de".toList { id := 4, g := .m, n := .s, pro := true }, .pp "dans".toList { id := 3, g := .m, n := .s, pro := true },
+              .pp "à".toList { id := 2, g := .f, n := .s, pro := true }, .dir { id := 1, g := .m, n := .s, pro := true }],
+    typ := { neg := some .yes, refl := true } }
+example : FirstVerbMain reversed4 := firstVerbMain_of_check _ (by decide)
+example : (phraseToks reversed4).map (fun r => r.1.map Tok.form) =
+    .ok ["il".toList, "ne".toList, "le".toList, "lui".toList, "y".toList, "en".toList, "donne".toList, "pas".toList] := by decide
 
 end Pyrealb.C05
